@@ -98,6 +98,12 @@ type vPol struct {
 	Max     int    `json:"max"`     // then at most Max presentations are accepted (0: no limit)
 	MaxTx   uint64 `json:"maxtx"`   // accepted only with tx <= MaxTx (0: no limit)
 	Revoked bool   `json:"revoked"` // currently revoked (toggled by the history's revoke / grant steps)
+	// IDHex: the client id returned with an accepting verdict, as hex of its exact bytes (null: the default id, which
+	// names the credential and the connection).  Authenticate(addr, auth, tx) may legally answer (true, id) with ANY
+	// id: the EMPTY string (the http / command authenticators of extras pass a backend's answer through), an id that
+	// several connections share (one user, many devices), a very long one, one with odd bytes, one that looks like
+	// another connection's id.  Nothing about the id may decide whether a connection counts as authenticated.
+	IDHex *string `json:"idhex"`
 }
 
 func (p *vPol) accepts(c int, n int, tx uint64) bool {
@@ -185,7 +191,9 @@ func (e *vEnv) waitFor(d time.Duration, pred func([]vEntry) bool) bool {
 func (e *vEnv) snapshot() []vEntry {
 	e.mu.Lock()
 	defer e.mu.Unlock()
-	return append([]vEntry(nil), e.log...)
+	l := append([]vEntry(nil), e.log...)
+	vAttributeOnline(l)
+	return l
 }
 
 // connection tag carried inside credentials / ids / target addresses: "c<k>-..."
@@ -247,6 +255,9 @@ func (a *vAuth) Authenticate(addr net.Addr, auth string, tx uint64) (bool, strin
 		id = "id/" + auth
 		if p != nil {
 			id = "id/c" + strconv.Itoa(c) + "-" + auth // one credential, several connections: the id names the connection
+			if p.IDHex != nil {
+				id = string(vUnhex(*p.IDHex)) // the policy dictates the id (possibly empty / shared / long / odd bytes)
+			}
 		}
 	}
 	a.e.add(vEntry{C: c, K: "authret", OK: ok, ID: id})
@@ -355,7 +366,74 @@ type vTraffic struct{ e *vEnv }
 
 func (t *vTraffic) LogTraffic(id string, tx, rx uint64) bool { return true }
 func (t *vTraffic) LogOnlineState(id string, online bool) {
-	t.e.add(vEntry{C: vTagConn(id), K: "online", ID: id, OK: online})
+	// LogOnlineState is not told the connection; the id need not name it (ids may be empty or shared between
+	// connections): the entry is attributed to a connection by vAttributeOnline when the log is read.
+	t.e.add(vEntry{C: -1, K: "online", ID: id, OK: online})
+}
+
+// vAttributeOnline gives every `online` entry of a log its connection.  The code calls LogOnlineState(id, true) between the
+// return of the Authenticate call that accepted the connection and EventLogger.Connect(addr, id, ..) for it, and
+// LogOnlineState(id, false) before EventLogger.Disconnect(addr, id, ..); both neighbours carry the connection (address).
+// An online(b) entry with id X is therefore matched to a connection c that has been accepted with id X before it and has
+// no online(b) entry since; among several such connections (one id on several connections, driven concurrently) the one
+// whose next unmatched connect / disconnect entry comes first (earliest-deadline matching of points to intervals: finds a
+// consistent attribution whenever one exists).  No such connection: the old rule (a connection tag inside the id), else -1.
+func vAttributeOnline(log []vEntry) {
+	lastAcc := map[int]int{}
+	accID := map[int]string{}
+	onDone := map[int]bool{}
+	offDone := map[int]bool{}
+	closed := map[int]bool{}
+	used := map[int]bool{}
+	for i := range log {
+		x := &log[i]
+		switch x.K {
+		case "authret":
+			if x.OK {
+				lastAcc[x.C] = i
+				accID[x.C] = x.ID
+				onDone[x.C] = false
+			}
+		case "close":
+			closed[x.C] = true
+		case "online":
+			want := "connect"
+			if !x.OK {
+				want = "disconnect"
+			}
+			best, bestAt, bestNxt, bestOpen := -1, -1, -1, false
+			for c, j := range lastAcc {
+				if accID[c] != x.ID || (x.OK && onDone[c]) || (!x.OK && offDone[c]) {
+					continue
+				}
+				nxt := len(log)
+				for k := i + 1; k < len(log); k++ {
+					if log[k].K == want && log[k].C == c && log[k].ID == x.ID && !used[k] {
+						nxt = k
+						break
+					}
+				}
+				open := !x.OK && !closed[c] // an offline entry belongs to a connection that has been closed, if there is one
+				better := best < 0 || (bestOpen && !open) || (bestOpen == open && (nxt < bestNxt || (nxt == bestNxt && (j > bestAt || (j == bestAt && c < best)))))
+				if better {
+					best, bestAt, bestNxt, bestOpen = c, j, nxt, open
+				}
+			}
+			if best < 0 {
+				x.C = vTagConn(x.ID)
+				continue
+			}
+			x.C = best
+			if bestNxt < len(log) {
+				used[bestNxt] = true
+			}
+			if x.OK {
+				onDone[best] = true
+			} else {
+				offDone[best] = true
+			}
+		}
+	}
 }
 func (t *vTraffic) TraceStream(stream server.HyStream, stats *server.StreamStats) {}
 func (t *vTraffic) UntraceStream(stream server.HyStream)                          {}
